@@ -169,6 +169,10 @@ def proximal_convex_conj(prox_factory):
         # prox_factory accepts stepsize objects of the type given by sigma.
         space = prox_factory(sigma).domain
 
+        if isinstance(sigma, (list, tuple)):
+            # A sequence of step sizes cannot be inverted or multiplied
+            sigma = np.asarray(sigma, dtype=float)
+
         mult_inner = MultiplyOperator(1.0 / sigma, domain=space, range=space)
         mult_outer = MultiplyOperator(sigma, domain=space, range=space)
         result = (IdentityOperator(space) -
